@@ -558,7 +558,9 @@ def _create_sbml_reactions(
                 case Derived():
                     # SBML uses species references for derived stoichiometries
                     # So we need to create a assignment rule and then refer to it
-                    reference = f"{compound_id}ref"
+                    # The id has to be unique, a compound can have a derived
+                    # stoichiometry in more than one reaction
+                    reference = f"{name}_{compound_id}ref"
                     _create_derived_parameter(sbml_model, reference, factor)
 
                     # The rule carries the sign: a product reference adds
